@@ -31,6 +31,11 @@ func c14Payload(L int, text bool, seed int) interface{} {
 		b[L-1] = byte('A' + seed%26) // make the last byte (end of the overflow chain) significant
 	}
 	if text {
+		// text is stored and returned byte for byte, also when it is not well-formed UTF-8
+		if L >= 4 && seed%2 == 1 {
+			b[L/2] = 0xff
+			b[1] = 0xc3
+		}
 		return string(b)
 	}
 	return b
@@ -201,6 +206,8 @@ func c14Dense(r *ev.Run) {
 			l.MustExec(fmt.Sprintf("INSERT INTO d1 VALUES (%s); INSERT INTO d2 VALUES (%s, %s); INSERT INTO dw VALUES (%d, %s)", vals[i%5], vals[i%5], vals[(i/5)%5], i, vals[i%5]))
 		}
 		l.MustExec("COMMIT; CREATE INDEX d1_v ON d1 (v)")
+		// rowid varints of every length next to each other on one leaf, incl. neighbours 2^63 and more apart
+		l.MustExec("CREATE TABLE far (id INTEGER PRIMARY KEY, v); INSERT INTO far VALUES (-9223372036854775808, 'min'), (9223372036854775807, 'max'); CREATE TABLE far2 (id INTEGER PRIMARY KEY, v); INSERT INTO far2 VALUES (-9223372036854775808, 'min'), (0, 'zero'), (127, 'a'), (128, 'b'), (16383, 'c'), (16384, 'd'), (4611686018427387904, 'e'), (9223372036854775807, 'max')")
 		img := l.Serialize()
 		r.Validated(1)
 		r.StateBytes(img)
@@ -221,6 +228,8 @@ func c14Dense(r *ev.Run) {
 			{"d2", []string{"rowid", "v", "w"}, "SELECT rowid, v, w FROM d2 ORDER BY rowid", ""},
 			{"dw", []string{"k", "v"}, "SELECT k, v FROM dw ORDER BY k", ""},
 			{"d1", []string{"v", "rowid"}, "SELECT v, rowid FROM d1 ORDER BY v, rowid", "d1_v"},
+			{"far", []string{"id", "v"}, "SELECT id, v FROM far ORDER BY id", ""},
+			{"far2", []string{"id", "v"}, "SELECT id, v FROM far2 ORDER BY id", ""},
 		} {
 			want, err := l.Query(q.sql)
 			if err != nil {
